@@ -20,7 +20,7 @@ import (
 
 //verif:include ../dnsdata/rdb/zz_verif_model.go
 //verif:include ../db/zz_verif_world.go
-//verif:harness H14_hb property=C14 native=no quick=layout=2,sched=0,watch=0,cache=0,pre=0;layout=0,sched=0,watch=0,cache=1,pre=0;layout=1,sched=0,watch=1,cache=1,pre=0;layout=2,sched=1,watch=0,cache=0,pre=1 thorough=layout=2,sched=0,watch=1,cache=1,pre=0;layout=0,sched=0,watch=1,cache=0,pre=0;layout=2,sched=1,watch=0,cache=0,pre=0;layout=0,sched=2,watch=0,cache=1,pre=1
+//verif:harness H14_hb property=C14 native=no quick=layout=2,sched=0,watch=0,cache=0,pre=0;layout=0,sched=0,watch=0,cache=1,pre=0;layout=1,sched=0,watch=1,cache=1,pre=0;layout=2,sched=1,watch=0,cache=0,pre=1;layout=2,sched=1,watch=0,cache=0,pre=2;layout=1,sched=1,watch=0,cache=0,pre=2 thorough=layout=2,sched=0,watch=1,cache=1,pre=0;layout=0,sched=0,watch=1,cache=0,pre=0;layout=2,sched=1,watch=0,cache=0,pre=0;layout=0,sched=2,watch=0,cache=1,pre=1
 
 func H14_hb() {
 	verifLayout = nd.Param("layout")
@@ -74,6 +74,20 @@ func H14_hb() {
 			env.h.ReportBackendStats()
 			done <- struct{}{}
 		},
+	}
+	if nd.Param("pre") == 2 {
+		// a query pre-empted inside a storage operation (it may hold a pooled iterator) while a
+		// partial reload disables and re-enables the iterator pool
+		tasks = []func(){tasks[1], func() {
+			verifPathGen["/db/gen0"] = 1
+			if m := db.VerifRocksModel(db.VerifDBI(env.h.dnsdb)); m != nil {
+				snap, err := db.VerifBuildSnapshot(verifGenRecords(1), verifLayout == 2)
+				nd.Assert(err == nil, "snapshot")
+				m.Primary = db.VerifPrimaryOf(snap)
+			}
+			_ = env.h.Reload(*NewPartialReloadSignal())
+			done <- struct{}{}
+		}}
 	}
 	if nd.Param("pre") == 1 {
 		// pre-emption shape: the three queries only, pre-empted between any two handler steps
